@@ -28,6 +28,7 @@ static const char *const PROBE_NAMES[PR__COUNT] = {
     "throw_with_heap_target", "throw_with_heap_rvalue_argument", "object_reused_after_throw",
     "fault_in_allocate_after_release", "fault_in_vector_growth", "fault_while_constructing_exception",
     "target_empty_after_fault", "target_old_value_after_fault", "fault_in_stream_growth", "fault_in_std_function", "stream_topped_up_before_append",
+    "storage_retained_by_static_or_thread_local_object_after_teardown",
 };
 const char *probe_name(int i) { return (i >= 0 && i < PR__COUNT) ? PROBE_NAMES[i] : "?"; }
 const char *exc_name(int e) {
